@@ -1,10 +1,14 @@
 #!/bin/sh
-# Offline setup: copy go.sum from the repository and pre-build the harness (warms the build cache).
-set -e
+# Offline setup: copy go.sum from the repository and pre-build the harness with the verif tag
+# (warms the build cache). A build problem is reported here but does not fail the setup:
+# every ./check builds the one package it needs from /repo's working tree anyway.
 cd "$(dirname "$0")"
 export GOFLAGS=-mod=mod GOPROXY=off GOSUMDB=off GOTOOLCHAIN=local
-cp /repo/go.sum harness/go.sum
+cp /repo/go.sum harness/go.sum || exit 1
 cd harness
-go build ./... 
-go test -tags verif -vet=off -count=1 -run '^$' ./... >/dev/null 2>&1 || true
-echo setup ok
+if go build -tags verif ./... && go test -tags verif -vet=off -count=1 -run '^$' ./... >/dev/null 2>&1; then
+  echo "setup ok"
+else
+  echo "setup: harness pre-build reported problems (see above); checks build on demand"
+fi
+exit 0
